@@ -20,6 +20,11 @@
    PytorchEngineLineOCR objects around a TorchScript stub network (alphabets of equal and of different size, one of more
    than 1024 symbols, one alphabet shared by two engines, engines asked alternately).  Every call is one trace of
    LineBatcher_Trace (kinds "lb" / "pt"); the history is no input of any clause there.
+4. Dynamic range (round 8; WIDE_PATS, wide_sessions): real PytorchEngineLineOCR objects around a stub network whose frames have the
+   logit spreads of a real network (60 / 100 / 800, common offsets of +-10^4, several classes within ln(10^4) of the top).  The
+   stored value of every class at every frame inside the window is recorded; TLC decides the keep-set from the network's integer
+   logits (LineBatcher!SpStoredOK, fixed-point e^-d table, 2 % band) - "sparse storage keeps every logit whose posterior is at
+   least 1e-4 unchanged and nothing else"; dense modes must return the logits themselves.
 """
 import itertools
 
@@ -129,6 +134,57 @@ PT_ENGINES = [{"type": "pt", "bs": 2, "alpha": 1, "nsym": 10}, {"type": "pt", "b
 LB_ENGINES = [{"type": "lb", "bs": 1}, {"type": "lb", "bs": 2}, {"type": "lb", "bs": 16}]
 
 
+# round 8: frames with the dynamic range of a real network (patterns [off, ds, fl] of lb_common._pt_network_wide: the top logit is
+# off, the classes next to it lie ds[j] below, all others fl below).  Spreads of 60 / 100 / 800 (float32 exp overflows beyond 88.7,
+# float64 beyond 709), common offsets of +-10^4 and +-300, several classes within ln(10^4) = 9.21 of the top (the sum of the
+# posterior's denominator decides whether a class 8 or 9 below the top is kept), classes just beyond (10, 11, 12).
+WIDE_PATS = [
+    {"off": 2, "ds": [3], "fl": 20},                       # frames that see padding only
+    {"off": 3, "ds": [5, 63, 91, 9], "fl": 60},            # top 3, then -2, -60, -88, -6: one very unlikely class
+    {"off": -4, "ds": [2, 9], "fl": 100},
+    {"off": 0, "ds": [1, 1, 1, 2, 9], "fl": 800},          # four classes close to the top: the one 9 below is NOT kept
+    {"off": 10000, "ds": [4, 8], "fl": 30},
+    {"off": -10000, "ds": [3, 7, 12], "fl": 25},
+    {"off": 300, "ds": [1, 1, 1, 1, 1, 1], "fl": 9},       # six classes 1 below the top: everything 9 below is dropped
+    {"off": -300, "ds": [9], "fl": 60},                    # alone next to the top: 9 below is kept
+    {"off": 7, "ds": [6, 7, 8], "fl": 120},
+    {"off": 5, "ds": [10, 11], "fl": 88},
+    {"off": -7, "ds": [2, 60, 100, 800], "fl": 400},
+    {"off": 11, "ds": [8, 8, 8, 8], "fl": 70},
+    {"off": 9000, "ds": [1, 9, 30], "fl": 95},
+]
+WIDE_ENGINES = [{"type": "pt", "bs": 2, "alpha": 1, "nsym": 10, "pats": WIDE_PATS}, {"type": "pt", "bs": 1, "alpha": 2, "nsym": 7, "pats": WIDE_PATS},
+                {"type": "pt", "bs": 16, "alpha": 3, "nsym": 10, "pats": WIDE_PATS}]
+
+
+def random_pats(rng, nsym, n=14):
+    out = [{"off": rng.choice([0, 2, -3]), "ds": [rng.randint(1, 6)], "fl": rng.choice([15, 20, 40])}]
+    for _ in range(n - 1):
+        m = rng.randint(1, min(6, nsym - 1))
+        ds = [rng.choice([1, 1, 2, 3, 5, 6, 7, 8, 9, 9, 10, 11, 12, 30, 60, 87, 90, 100, 700, 800]) for _ in range(m)]
+        out.append({"off": rng.choice([0, 1, -1, 6, -13, 300, -300, 800, -800, 10000, -10000, 100000, -100000]), "ds": ds,
+                    "fl": rng.choice([9, 10, 14, 30, 60, 89, 100, 120, 710, 800, 5000])})
+    return out
+
+
+def wide_sessions(ctx, quick=True):
+    M = lambda name: dict(MODES[name])
+    C = lambda e, w, m="sparse", fail=0: {"e": e, "w": list(w), "mode": M(m), "fail": fail}
+    out = [{"engines": WIDE_ENGINES, "calls": [C(0, [33, 120, 9]), C(0, [33, 120, 9], "dense"), C(1, [448, 1, 33]), C(1, [500], "sparse-tight"),
+                                                C(2, [120, 120, 57, 8]), C(0, [57, 3], "sparse-tight"), C(2, [448, 33], "dense-tight"),
+                                                C(1, [120, 9], "nolog"), C(0, [9, 120, 33], fail=1)]}]
+    for k in range(0 if quick else 6):
+        engs = [{"type": "pt", "bs": bs, "alpha": 1 + j, "nsym": ns, "pats": random_pats(ctx.rng, ns)}
+                for j, (bs, ns) in enumerate([(2, 10), (1, 7), (16, 15), (3, 4)])]
+        calls = []
+        for _ in range(ctx.rng.randint(4, 7)):
+            n = ctx.rng.choice([1, 2, 3, 3, 4])
+            calls.append(C(ctx.rng.randrange(len(engs)), [ctx.rng.choice([1, 3, 8, 9, 33, 57, 120, 200, 448, 500]) for _ in range(n)],
+                           ctx.rng.choice(["sparse", "sparse", "sparse-tight", "dense", "dense-tight"]), fail=int(ctx.rng.random() < 0.15)))
+        out.append({"engines": engs, "calls": calls})
+    return out
+
+
 def sessions(ctx, b, quick=True):
     """sequences of calls on long-lived engines; widths of the "lb" calls come from the bounds entry b"""
     M = lambda name: dict(MODES[name])
@@ -169,7 +225,7 @@ def sessions(ctx, b, quick=True):
             calls.append(C(ctx.rng.randrange(len(engs)), [ctx.rng.choice(pool) for _ in range(n)], ctx.rng.choice(names),
                            fail=int(ctx.rng.random() < 0.15)))
         out.append({"engines": engs, "calls": calls})
-    return out
+    return out + wide_sessions(ctx, quick)
 
 
 def _fresh(func, items, procs=4):
@@ -224,6 +280,16 @@ def judge_sessions(ctx, b, sess, pad):
             return tr
         ctx.selftest_corrupt("LineBatcher_Trace", traces[good[len(good) // 2]], corrupt, constants=loose)
         ctx.notes["selftest_corrupted_pt_trace_rejected"] = True
+    goodw = [i for i in good if traces[i].get("wide") and traces[i]["mode"]["sparse"] and not traces[i]["mode"]["nolog"]
+             and traces[i]["res"][0]["sp"] and any(v != 0 for v in traces[i]["res"][0]["sp"][0])]
+    if goodw and "selftest_corrupted_wide_trace_rejected" not in ctx.notes:
+        def corrupt_sp(tr):
+            row = tr["res"][0]["sp"][0]
+            top = max(v for v in row if v != 0)       # the stored values are off - D: the largest one is the frame's top logit
+            row[row.index(top)] = 0                   # the most probable class of the first frame is no longer stored
+            return tr
+        ctx.selftest_corrupt("LineBatcher_Trace", traces[goodw[0]], corrupt_sp, constants=loose)
+        ctx.notes["selftest_corrupted_wide_trace_rejected"] = True
 
 
 def _describe_pt(tr, prog):
@@ -231,6 +297,13 @@ def _describe_pt(tr, prog):
         return "outcome", "process_lines ended with %s" % tr["outcome"]
     if prog < len(tr["res"]):
         r = tr["res"][prog]
+        if tr.get("wide"):
+            return "line-result", ("result at input position %d (width %d) of an engine whose network emits frames of a wide dynamic range "
+                                   "(spreads up to 800, common offsets up to 1e4) is not that image's result, or its %s logits are not "
+                                   "the frame's logits %s: coords kind %d [%d, %d], %d frames, stored values of the first frames in the "
+                                   "window %s" % (prog + 1, tr["w"][prog], "stored" if tr["mode"]["sparse"] else "returned",
+                                                  "with posterior >= 1e-4 and 0 elsewhere" if tr["mode"]["sparse"] else "",
+                                                  r["cs"], r["lo"], r["hi"], r["frames"], r["sp"][:3]))
         return "line-result", ("result at input position %d (width %d) is not the result of that image in the alphabet of the engine "
                                "asked (alphabet %d, %d symbols): %d characters, codes (2048 * alphabet + symbol) %s, coords kind %d [%d, %d], "
                                "%d frames" % (prog + 1, tr["w"][prog], tr["alpha"], tr["nsym"], r["tlen"], r["txt"][:8], r["cs"], r["lo"],
@@ -331,7 +404,9 @@ def run(ctx):
                "transformer mode: the window/merge clause is checked with texts whose overlaps are exact; the merge itself is C15's subject",
                "history: a fixed set of sessions plus a few sampled ones (3 - 11 calls on up to 7 long-lived engine objects per process, a failing "
                "call in between, alphabets of 7 / 10 / 1300 symbols); histories are sampled by the driver, not enumerated by TLC - the trace "
-               "specification judges every call as if it were the first one")
+               "specification judges every call as if it were the first one",
+               "sparse storage on frames of a wide dynamic range: integer logits (exact in float32) from a fixed set of 13 frame patterns "
+               "(thorough: + random pattern sets), <= 16 classes; a class whose posterior is within 2 % of 1e-4 admits both outcomes")
     pad = _pad_of_engine(ctx)
     sharpness(ctx)
     # sessions first: their processes are forked from a process in which no engine has been asked anything yet
